@@ -136,6 +136,62 @@ def disk_state(root: Path, fid):
     return {"closed": sorted(closed), "docs": docs, "roots": roots, "fid": dict(fid)}
 
 
+def wide_level(a):
+    """(child) a list with well over a hundred child lists (one multi-writer call with `writers` writers), then a continued session;
+    the directory is copied right after every rename of a metadata file — each copy is what a crash at that instant leaves and what a
+    reader looking at that instant sees: every example committed by the first session is still returned, nothing unknown is."""
+    import pathlib
+    sp.sedpack()
+    from sedpack.io import Dataset
+    root = Path(a["root"]); shutil.rmtree(root, ignore_errors=True)
+    for old in root.parent.glob(root.name + "_snap*"): shutil.rmtree(old, ignore_errors=True)
+    ds = sp.mk(root, fmt=a["fmt"], eps=2, hashes=("sha256",))
+    def feed(filler, lo, n):
+        with filler as f:
+            for v in range(lo, lo + n):
+                f.write_example(values=sp.val(v), split="train")
+        return 0
+    W = a["writers"]
+    ds.write_multiprocessing(feed_writer=feed, custom_arguments=[(i, 1) for i in range(W)], single_process=True, consistency_check=False)
+    committed = list(range(W))
+    snaps = []
+    orig = pathlib.Path.replace
+    def rep(self, target):
+        r = orig(self, target)
+        t = pathlib.Path(target)
+        if t.name in ("shards_list.json", "dataset_info.json") and str(t).startswith(str(root) + "/") and len(t.relative_to(root).parts) <= 2:
+            d = Path(str(root) + f"_snap{len(snaps)}"); shutil.copytree(root, d); snaps.append((d, str(t.relative_to(root))))
+        return r
+    new = list(range(10 ** 4, 10 ** 4 + 6))
+    pathlib.Path.replace = rep
+    err = None
+    try:
+        try:
+            d2 = Dataset(root)
+            if a["second"] == "multi":
+                d2.write_multiprocessing(feed_writer=feed, custom_arguments=[(10 ** 4, 2), (10 ** 4 + 2, 2), (10 ** 4 + 4, 2)], single_process=True, consistency_check=False)
+            else:
+                from sedpack.io.dataset_filler import DatasetFiller
+                with DatasetFiller(d2, relative_path_from_split=Path("zz/late")) as f:
+                    for v in new: f.write_example(values=sp.val(v), split="train")
+        except Exception as e:  # noqa: BLE001
+            err = f"{type(e).__name__}: {str(e)[:200]}"
+    finally:
+        pathlib.Path.replace = orig
+    problems = []
+    for k, (d, what) in enumerate(snaps + [(root, "end of the session")]):
+        try:
+            got = sorted(sp.read_ids(Dataset(d), "train"))
+            lost = sorted(set(committed) - set(got)); alien = sorted(set(got) - set(committed) - set(new))
+            if lost or alien or len(got) != len(set(got)):
+                problems.append(f"right after rename #{k} ({what}): {len(lost)} committed examples are not returned (e.g. {lost[:5]}), unknown {alien[:5]}")
+        except Exception as e:  # noqa: BLE001
+            problems.append(f"right after rename #{k} ({what}): {type(e).__name__}: {str(e)[:150]}")
+        if d != root: shutil.rmtree(d, ignore_errors=True)
+    shutil.rmtree(root, ignore_errors=True)
+    return {"case": {k: a[k] for k in a if k != "root"}, "snapshots": len(snaps), "problems": problems, "error": err}
+
+
 def run(ctx):
     sp.sedpack()
     from sedpack.io import Dataset
@@ -344,6 +400,15 @@ def run(ctx):
         if r["problems"]:
             ctx.report({"kind": "committed-lost", "two_processes": True}, f"a writer process continuing after another process's completed session (sub-directory {sub!r}): {r['problems'][0]}",
                        {"case": r["case"], "problems": r["problems"]})
+    # ---- a wide level: a list with 140 (thorough: 300) child lists, then a continued session, observed right after every metadata rename
+    nwide = 0
+    for j, second in enumerate(["multi", "filler"][: ctx.pick(1, 2)]):
+        wa = {"root": str(ctx.scratch / f"c06_wide{j}"), "fmt": ["fb", "npz"][(j + ctx.seed) % 2], "writers": ctx.pick(140, 300), "second": second}
+        wr = child.call("harness.checks.c06", "wide_level", wa, timeout=1500)
+        nwide += wr["snapshots"]; nsnaps += wr["snapshots"]
+        if wr["error"] or wr["problems"]:
+            ctx.report({"kind": "crash-state", "at": "after-rename", "wide_level": True},
+                       f"{wa['fmt']} continued session ({second}) on a list with {wa['writers']} child lists: {wr['error'] or wr['problems'][0]}", {"wide_case": wr["case"], "problems": wr["problems"][:5], "error": wr["error"]})
     reps = lean.driver(reqs) if reqs else []
     corr_bad = []
     for (sig, sess, si, labels, idx), rep in zip(meta, reps):
@@ -390,7 +455,7 @@ def run(ctx):
                    {"correspondence": "M-TREE: every split merged by a completed session is exact again, from any well-formed store", "theorem": "Sedpack.Tree.C06_next_session_heals",
                     "cases": heal_bad[:2]}, name="corr-heal", nofail=True)
     ctx.cov.update({
-        "crash_states_healed_by_next_session": nheal, "shard_file_write_failures_with_continuing_caller": nshardfail,
+        "crash_states_healed_by_next_session": nheal, "shard_file_write_failures_with_continuing_caller": nshardfail, "wide_level_after_rename_snapshots": nwide,
         "installs_compared": ninst, "crash_states_compared_with_model": ncrash,
         "evaluations": nsnaps + ntorn, "distinct_nontrivial": len(distinct), "traces_validated_against_impl": sessions_run - len(corr_bad),
         "crash_snapshots": nsnaps, "torn_variants": ntorn, "sessions": sessions_run,
@@ -400,7 +465,7 @@ def run(ctx):
                 "recovery oracle; torn variants truncate every file no reachable document names; a metadata file opened for writing in place is truncated (crash right after the open); "
                 "every other session with renames across directories failing (EXDEV); the documents and order of the observed renames are compared with M-TREE's effect-emitting "
                 "session (multiSessionE) and the reader's enumeration of every after-rename snapshot with the model's crash state; splits first written through sub-directory writers; sessions replayed with the k-th metadata temp file, and (fb/npz) the k-th shard file, failing with ENOSPC — "
-                "the latter with a caller that skips the failing writes and carries on; "
+                "the latter with a caller that skips the failing writes and carries on; a list with 140 / 300 child lists continued by a further session, copied right after every metadata rename; "
                 "distinct = (format, session kind, sub-directory, continued?)",
         "samples": [{"labels": m[3][:14]} for m in meta[:2]],
         "input_distribution": {"sessions": sessions_run, "snapshots": nsnaps, "torn": ntorn,
